@@ -13,6 +13,7 @@ def run(ck):
         'semantics, float rounding.')
     run_tables(ck, 'C03.gross', cases.gross_range, scope='all')
     run_tables(ck, 'C03.valid', cases.valid_range, scope='all')
+    run_tables(ck, 'C03.valid', cases.valid_range_typed, scope='all')
     run_carrier_sweep(ck, 'C03.gross', cases.gross_range, time=False, n_max=2)
     ck.floor('C03.gross.table', 50)
     ck.floor('C03.valid.table', 50)
